@@ -273,6 +273,8 @@ pub fn run(a: &Args) {
         let (request, observed, oracle) = run_session(&ops);
         cases.push(Case { request, observed, oracle, class: class.join("") });
     }
+    // the cipher stream as the connection handler composes it: Encryption Response and the first encrypted frames in one segment
+    cases.extend(crate::byterun::coalesced_cases(&mut rng, (a.cases / 100).clamp(8, 400)));
     write_cases(&a.out, &cases).expect("write cases");
     println!("c05: {} sessions", cases.len());
 }
